@@ -356,6 +356,10 @@ func (vc *FuncVC) elemRef(arr, idx Term) Term {
 	f := vc.declFun("elemref", []string{SInt, SInt}, SInt)
 	b := vc.declFun("baseOf", []string{SInt}, SInt)
 	vc.onceAssume("elemref.base", T(fmt.Sprintf("(forall ((a Int) (j Int)) (! (and (= (%s (%s a j)) (%s a)) (> (%s a j) 0)) :pattern ((%s a j))))", b, f, b, f, f), SBool))
+	// different elements are different objects: the element address determines array and index
+	ei := vc.declFun("elemidx", []string{SInt}, SInt)
+	ea := vc.declFun("elemarr", []string{SInt}, SInt)
+	vc.onceAssume("elemref.inj", T(fmt.Sprintf("(forall ((a Int) (j Int)) (! (and (= (%s (%s a j)) j) (= (%s (%s a j)) a)) :pattern ((%s a j))))", ei, f, ea, f, f), SBool))
 	return T(app(f, arr, idx), SInt)
 }
 
@@ -924,7 +928,34 @@ func (vc *FuncVC) bitOp(x *ssa.BinOp, a, b Term) Term {
 			}
 		}
 	}
+	if x.Op == token.OR {
+		// (u << k) | (v & (2^k - 1)): the two operands occupy disjoint bits, the result is their sum
+		pack := func(hi, lo ssa.Value) bool {
+			sh, ok1 := hi.(*ssa.BinOp)
+			an, ok2 := lo.(*ssa.BinOp)
+			if !ok1 || !ok2 || sh.Op != token.SHL || an.Op != token.AND {
+				return false
+			}
+			k, okk := isConstOperand(sh.Y)
+			m, okm := isConstOperand(an.Y)
+			if !okk || !okm || !k.IsInt64() || k.Int64() >= 63 {
+				return false
+			}
+			want := new(big.Int).Sub(new(big.Int).Lsh(big.NewInt(1), uint(k.Int64())), big.NewInt(1))
+			return m.Cmp(want) == 0
+		}
+		if nonneg && (pack(x.X, x.Y) || pack(x.Y, x.X)) {
+			return Arith("+", a, b)
+		}
+	}
 	vc.abstract("bitop" + x.Op.String())
+	if x.Op == token.XOR {
+		// on non-negative operands xor is non-negative and at most their sum
+		f := vc.declFun("bitxor", []string{SInt, SInt}, SInt)
+		r := T(app(f, a, b), SInt)
+		vc.assume(Implies(And(Cmp(">=", a, IntLit(0)), Cmp(">=", b, IntLit(0))), And(Cmp(">=", r, IntLit(0)), Cmp("<=", r, Arith("+", a, b)))))
+		return r
+	}
 	name := map[token.Token]string{token.AND: "bitand", token.OR: "bitor", token.XOR: "bitxor", token.SHL: "shl", token.SHR: "shr", token.AND_NOT: "bitandnot"}[x.Op]
 	f := vc.declFun(name, []string{SInt, SInt}, SInt)
 	r := T(app(f, a, b), SInt)
@@ -944,9 +975,14 @@ func (vc *FuncVC) execConvert(x *ssa.Convert) {
 			vc.defineVal(x, &Val{T: a})
 			return
 		}
-		vc.defineVal(x, &Val{T: a})
 		lo, hi, ok := intRange(to)
 		flo, fhi, fok := intRange(from)
+		if ok && fok && flo.Sign() == 0 && lo.Sign() == 0 && fhi.Cmp(hi) > 0 {
+			// unsigned to narrower unsigned: Go truncates, exactly a mod 2^bits
+			vc.defineVal(x, &Val{T: T(app("mod", a, BigLit(new(big.Int).Add(hi, big.NewInt(1)))), SInt)})
+			return
+		}
+		vc.defineVal(x, &Val{T: a})
 		if ok && fok && (flo.Cmp(lo) < 0 || fhi.Cmp(hi) > 0) {
 			if vc.C == nil || !vc.C.NoOvf {
 				vc.oblige("safe.convert", "safe.convert", vc.g(), And(Cmp("<=", BigLit(lo), a), Cmp("<=", a, BigLit(hi))), "integer conversion changes the value: "+x.String())
